@@ -123,3 +123,42 @@ def structural_spmd(run, relfiles, group, only=None):
         if not ok:
             failed.append((fq, desc, line))
     return failed
+
+
+def structural_generic(run, relfiles, obligations_of, backend, note, needs_module_names=False):
+    """Structural obligations computed by obligations_of(fnode[, module_names]) for every function of the files."""
+    import ast
+    from pyvc import spmd
+    failed = []
+    for rel in relfiles:
+        tree = ast.parse(open(run.src(rel)).read())
+        top = set()
+        for n in tree.body:
+            if isinstance(n, (ast.Import, ast.ImportFrom)):
+                for a in n.names:
+                    top.add((a.asname or a.name).split(".")[0])
+            elif isinstance(n, (ast.FunctionDef, ast.ClassDef)):
+                top.add(n.name)
+            elif isinstance(n, ast.Assign):
+                for t in n.targets:
+                    if isinstance(t, ast.Name):
+                        top.add(t.id)
+        for name, f in spmd.all_functions(tree):
+            obs = obligations_of(f, top) if needs_module_names else obligations_of(f)
+            if not obs:
+                continue
+            fq = "esr/%s::%s" % (rel, name)
+            run.add_function(fq, rel, note=note)
+            for desc, ok, line in obs:
+                run.add_obligation("%s/%s" % (name, desc), fq, "proved" if ok else "refuted", backend, 0.0, desc)
+                if not ok:
+                    failed.append((fq, desc, line))
+    return failed
+
+
+def report_structural(run, sfailed, prefix, analysis):
+    if sfailed and not run.violations:
+        fq, desc, line = sfailed[0]
+        run.violation("%s:%s:%s" % (prefix, fq.split("::")[1], " ".join(desc.split())[:80]),
+                      "%s: structural obligation no longer holds: %s (%d failed)" % (fq, desc, len(sfailed)),
+                      {"obligation": desc, "function": fq, "analysis": analysis}, no_input=True)
